@@ -23,7 +23,14 @@
          + getBlockNuclideTemperatureAvgTerms                -> NucTemp
        ._calcWeightedBurnup                                  -> Burnup
      FluxWeightedAverageBlockCollection                      -> rep = "FluxWeightedAverage" (weightingParam "flux")
-     MedianBlockCollection._getMedianBlock                   -> MedianPos  (sorted by (burnup*weight, name); index n div 2)
+     MedianBlockCollection._getMedianBlock                   -> MedianIdx  (sorted by (burnup*weight, name); index n div 2)
+     MedianBlockCollection._makeRepresentativeBlock          -> the copy carries a duplicate of the member's lumped-fission-product
+                                                                collection when the member has one (field lfp)
+     CylindricalComponentsAverageBlockCollection             -> rep = "ComponentAverage1DCylinder"
+       ._selectCandidateBlock/_getNewBlock                   -> CylSourceIdx (candidate at index n div 2 of (block-average temperature, name))
+       ._makeRepresentativeBlock/_getAverageComponentNucs    -> per sorted component, weights W * component area = AvgCompDens with volume
+                                                                weights (the areas agree between blocks); burnup and nuclide temperatures
+                                                                as for Average; component temperatures stay those of the copied candidate
 
    A block is a record
      kind  block type ("fuel", "control", "reflector"); the valid-block-type filter selects on it
@@ -32,6 +39,8 @@
      w     the weighting parameter value (flux);  bu  percentBu;  hm  massHmBOL
      n     n[c][k] number density of nuclide k in component c (0 where c does not hold k; Holds[c] = keys of the dict)
      t     t[c] component temperature
+     ord   the order in which the components are stored in the block (a permutation of the sorted order; nothing may depend on it)
+     lfp   the block carries a lumped-fission-product collection
 
    Interpretation choices
    * "weight" of a member = (flux or 1) * volume for the flux-weighted option, volume otherwise (getWeight);
@@ -63,7 +72,7 @@ Area  == FoldLeft(LAMBDA acc, a : acc + a, 0, CompArea)
 Vol(b)     == Area * b.h
 CVol(b, c) == CompArea[c] * b.h
 
-Reps    == {"Median", "Average", "FluxWeightedAverage"}
+Reps    == {"Median", "Average", "FluxWeightedAverage", "ComponentAverage1DCylinder"}
 Filters == {"all", "fuel", "fuelcontrol"}
 FilterKinds(f) == CASE f = "fuel" -> {"fuel"} [] f = "fuelcontrol" -> {"fuel", "control"} [] OTHER -> {"fuel", "control", "reflector"}
 Opt(r, f, c) == [rep |-> r, filter |-> f, byComp |-> c]
@@ -127,8 +136,14 @@ MedBefore(cs, ps, i, j) == \/ MedKey(cs[i]) < MedKey(cs[j])
 \* index (in cs) of the element with exactly (n div 2) elements before it in the sorted order
 MedianIdx(cs, ps) == CHOOSE j \in Idx(cs) : Cardinality({i \in Idx(cs) : MedBefore(cs, ps, i, j)}) = Len(cs) \div 2
 
+(* ---------- the 1-D cylinder option: which candidate is copied ---------- *)
+AvgTempNum(b) == ISum([c \in Comps |-> CompArea[c] * b.t[c]])            \* block-average temperature * Area
+CylBefore(cs, ps, i, j) == \/ AvgTempNum(cs[i]) < AvgTempNum(cs[j])
+                           \/ AvgTempNum(cs[i]) = AvgTempNum(cs[j]) /\ NameRank(ps[i]) < NameRank(ps[j])
+CylSourceIdx(cs, ps) == CHOOSE j \in Idx(cs) : Cardinality({i \in Idx(cs) : CylBefore(cs, ps, i, j)}) = Len(cs) \div 2
+
 (* ---------- createRepresentativeBlock ---------- *)
-NoRep(out) == [out |-> out, mode |-> "", src |-> 0, dens |-> <<>>, cdens |-> <<>>, ctemp |-> <<>>, ntemp |-> <<>>, bu |-> RZero]
+NoRep(out) == [out |-> out, mode |-> "", src |-> 0, lfp |-> FALSE, dens |-> <<>>, cdens |-> <<>>, ctemp |-> <<>>, ntemp |-> <<>>, bu |-> RZero]
 \* block-level averaging writes the homogenised average back with Block.setNumberDensities, which gives every component
 \* that holds the nuclide the same density (composites.updateNumberDensities: "evenly across all components that contain it")
 Spread(c, k, avg) == IF k \in Holds[c] THEN RDiv(RMul(avg, RInt(Area)), RInt(ISum([d \in Comps |-> IF k \in Holds[d] THEN CompArea[d] ELSE 0])))
@@ -142,25 +157,33 @@ RepOf(ms, opt) ==
        ELSE IF r = "Median" THEN
             LET m == MedianIdx(cs, ps)
                 one == <<cs[m]>>
-            IN [out |-> "ok", mode |-> "median", src |-> ps[m],                    \* a deep copy of member ps[m]
+            IN [out |-> "ok", mode |-> "median", src |-> ps[m], lfp |-> cs[m].lfp,  \* a deep copy of member ps[m]
                 dens  |-> [k \in Nucs |-> BlockDens(cs[m], k)],
                 cdens |-> [c \in Comps |-> [k \in Nucs |-> RInt(cs[m].n[c][k])]],
                 ctemp |-> [c \in Comps |-> RInt(cs[m].t[c])],
                 ntemp |-> [k \in Nucs |-> NucTemp(one, r, k)],
                 bu    |-> RInt(cs[m].bu)]
+       ELSE IF r = "ComponentAverage1DCylinder" THEN
+            LET m == CylSourceIdx(cs, ps)
+            IN [out |-> "ok", mode |-> "cylinder", src |-> ps[m], lfp |-> cs[m].lfp,
+                dens  |-> [k \in Nucs |-> AvgDens(cs, r, k)],
+                cdens |-> [c \in Comps |-> [k \in Nucs |-> AvgCompDens(cs, r, c, k)]],
+                ctemp |-> [c \in Comps |-> RInt(cs[m].t[c])],
+                ntemp |-> [k \in Nucs |-> NucTemp(cs, r, k)],
+                bu    |-> Burnup(cs, r)]
        ELSE IF ByComp(cs, opt) THEN
-            [out |-> "ok", mode |-> "component", src |-> ps[1],                    \* geometry copied from the first candidate
+            [out |-> "ok", mode |-> "component", src |-> ps[1], lfp |-> cs[1].lfp,  \* geometry copied from the first candidate
              dens  |-> [k \in Nucs |-> AvgDens(cs, r, k)],                       \* = the homogenised by-component result
              cdens |-> [c \in Comps |-> [k \in Nucs |-> AvgCompDens(cs, r, c, k)]],
              ctemp |-> [c \in Comps |-> AvgCompTemp(cs, r, c)],
              ntemp |-> [k \in Nucs |-> NucTemp(cs, r, k)],
              bu    |-> Burnup(cs, r)]
-       ELSE [out |-> "ok", mode |-> "block", src |-> ps[1],
+       ELSE [out |-> "ok", mode |-> "block", src |-> ps[1], lfp |-> cs[1].lfp,
              dens  |-> [k \in Nucs |-> AvgDens(cs, r, k)],
              cdens |-> [c \in Comps |-> [k \in Nucs |-> Spread(c, k, AvgDens(cs, r, k))]],
              ctemp |-> <<>>,
              ntemp |-> [k \in Nucs |-> NucTemp(cs, r, k)],
              bu    |-> Burnup(cs, r)]
 \* the numbers of a representative (without the position of its source in the collection)
-RepValues(R) == [out |-> R.out, dens |-> R.dens, cdens |-> R.cdens, ctemp |-> R.ctemp, ntemp |-> R.ntemp, bu |-> R.bu]
+RepValues(R) == [out |-> R.out, lfp |-> R.lfp, dens |-> R.dens, cdens |-> R.cdens, ctemp |-> R.ctemp, ntemp |-> R.ntemp, bu |-> R.bu]
 =====================================================================================================
